@@ -43,12 +43,15 @@ func mixed() *rapid.Generator[gen.Item] {
 	b := gen.BytesItem(gen.TokCSV)
 	a := gen.AnyItem(gen.TokCSV, 1)
 	long := gen.BoundaryString(gen.TokCSV)
+	hot := gen.ExpandingString([]string{"\"", "\"", ",", "\r\n", "\n"})
 	return rapid.Custom(func(t *rapid.T) gen.Item {
 		switch rapid.IntRange(0, 39).Draw(t, "any") {
 		case 0, 1, 2, 3, 4:
 			return a.Draw(t, "any-item")
 		case 5:
 			return gen.S(long.Draw(t, "long")) // record buffers have sizes too
+		case 6, 7:
+			return gen.S(hot.Draw(t, "hot")) // a quoted field grows by one byte per quote it holds
 		}
 		return b.Draw(t, "bytes-item")
 	})
